@@ -363,6 +363,20 @@ func isScalar(v value) bool {
 	return false
 }
 
+func isNilVal(v value) bool {
+	switch x := v.(type) {
+	case nil:
+		return true
+	case []value:
+		return x == nil
+	case *value:
+		return x == nil
+	case iface:
+		return x.t == nil
+	}
+	return false
+}
+
 // symIndex returns elems[idx] for a symbolic idx: bounds are a decision, the
 // element is an ite-chain over runs of equal elements (scalars) or obtained by
 // concretising the index (other element types).
@@ -378,6 +392,29 @@ func (i *interpreter) symIndex(fr *frame, elems []value, idx sym) value {
 		if !isScalar(e) {
 			allScalar = false
 			break
+		}
+	}
+	if !allScalar && len(elems) > 0 {
+		// sparse tables of aggregates (e.g. strings.byteStringReplacer's
+		// [256][]byte): one decision per non-nil entry, one class for the rest
+		var specials []int
+		rest := -1
+		for j, e := range elems {
+			if isNilVal(e) {
+				if rest < 0 {
+					rest = j
+				}
+			} else {
+				specials = append(specials, j)
+			}
+		}
+		if rest >= 0 && len(specials) <= 16 {
+			for _, j := range specials {
+				if i.decideBool(tb.Eq(ix, tb.BV(uint64(j), 64))) {
+					return copyVal(elems[j])
+				}
+			}
+			return copyVal(elems[rest])
 		}
 	}
 	if !allScalar || len(elems) == 0 {
